@@ -48,7 +48,9 @@ func (stdin *Stdin) GetDataType() (dt string) {
 			// than those edge case of deadlocks.
 			//stdin.dtLock.Lock()
 			//stdin.mutex.Lock()
+			stdin.mutex.Lock()
 			dt = stdin.dataType
+			stdin.mutex.Unlock()
 			verifhook.Emit(stdin, "gdt.cancel", dt)
 			//stdin.dtLock.Unlock()
 			//stdin.mutex.Unlock()
